@@ -1040,16 +1040,43 @@ func (cc *ClientConn) internalRoundTrip(req *http.Request, streamf func(*clientS
 				return handleResponseHeaders()
 			default:
 				waitDone()
+				cs.discardResponseBody(cs.abortErr)
 				return nil, cs.abortErr
 			}
 		case <-ctx.Done():
 			err := ctx.Err()
 			cs.abortStream(err)
+			cs.discardResponseBody(err)
 			return nil, cancelRequest(cs, err)
 		case <-cs.reqCancel:
 			cs.abortStream(errRequestCanceled)
+			cs.discardResponseBody(errRequestCanceled)
 			return nil, cancelRequest(cs, errRequestCanceled)
 		}
+	}
+}
+
+// discardResponseBody is called when RoundTrip returns an error instead of
+// the response: no Response.Body that the caller could read or close will
+// ever refer to the stream. Response DATA the read loop has already buffered
+// (the response can arrive while the request is being canceled) has its
+// connection-level flow control returned here, and DATA arriving later is
+// refused by the pipe and returned by processData.
+func (cs *clientStream) discardResponseBody(err error) {
+	cc := cs.cc
+	cs.bufPipe.BreakWithError(err)
+	unread := cs.bufPipe.Len()
+	if unread == 0 {
+		return
+	}
+	cc.mu.Lock()
+	connAdd := cc.inflow.add(unread)
+	cc.mu.Unlock()
+	if connAdd > 0 {
+		cc.wmu.Lock()
+		cc.fr.WriteWindowUpdate(0, uint32(connAdd))
+		cc.bw.Flush()
+		cc.wmu.Unlock()
 	}
 }
 
